@@ -76,12 +76,9 @@ def strip_guard(fi, key):
     return fn, g.test
 
 
-def run(pid, tier, seed):
-    res = driver.Result(pid, tier, seed)
-    res.trusted = list(heap_props.TRUSTED) + [
-        "slot storage (LightNodeMixin.__slots__) and instance-dict storage agree on getattr/setattr/hasattr for the two "
-        "bookkeeping names (CPython attribute protocol)",
-        "syntactically equal bodies under equal attribute semantics are observationally equal (all histories, all queries)"]
+def asteq(res):
+    """ASTEQ obligations (member by member, modulo mangling and the documented type guards) plus the SMT obligations
+    'the type guard is a skip for tree-node arguments'; undischarged obligations have result None"""
     try:
         ma, mb = frontend.members(*A), frontend.members(*B)
     except frontend.StructError as e:
@@ -148,6 +145,23 @@ def run(pid, tier, seed):
                 obls.append(o)
         except Exception as e:      # shape outside the subset
             add("%s[%s]/guard-evaluable" % ka, False, str(e))
+    return obls
+
+
+def run(pid, tier, seed):
+    res = driver.Result(pid, tier, seed)
+    res.trusted = list(heap_props.TRUSTED) + [
+        "slot storage (LightNodeMixin.__slots__) and instance-dict storage agree on getattr/setattr/hasattr for the two "
+        "bookkeeping names (CPython attribute protocol)",
+        "syntactically equal bodies under equal attribute semantics are observationally equal (all histories, all queries)"]
+    obls = asteq(res)
+    from . import deps
+    dep = driver.Result(pid, tier, seed)
+    deps.add(dep, pid)
+    obls += dep.obligations
+    res.struct += dep.struct
+    res.functions += dep.functions
+    res.notes += dep.notes
     todo = [o for o in obls if o.result is None]
     driver.discharge_cached(todo, tier, seed)
     # semantic layer: the same contracts hold for both families
